@@ -194,7 +194,10 @@ class DocGen:
         k = r.random()
         if k < 0.45 or not self.open_ranges:
             i = self.next_comment; self.next_comment += 1
-            self.open_ranges.append(i); self.comment_ids.append(i)
+            self.comment_ids.append(i)
+            if r.random() < 0.2:      # an empty range
+                return f'<w:commentRangeStart w:id="{i}"/><w:commentRangeEnd w:id="{i}"/><w:r><w:commentReference w:id="{i}"/></w:r>'
+            self.open_ranges.append(i)
             return f'<w:commentRangeStart w:id="{i}"/>'
         i = self.open_ranges.pop(r.randrange(len(self.open_ranges)))
         return f'<w:commentRangeEnd w:id="{i}"/><w:r><w:commentReference w:id="{i}"/></w:r>'
@@ -385,7 +388,7 @@ def make_package(rng, prof=None, body=None):
         root_rels.append(('rId2', CORE_RT, 'docProps/core.xml'))
     pk.add('_rels/.rels', rels_xml(root_rels))
     pk.add('word/document.xml', f'<w:document {NS}><w:body>{body_xml}</w:body></w:document>')
-    dr = [('rId9', 'hyperlink', 'http://x/', True), ('rId10', 'hyperlink', 'http://y/?a=1&b=2', True), ('rId20', 'image', 'media/i.png'),
+    dr = [('rId9', 'hyperlink', r.choice(['http://x/', 'http://x/', 'http://z/app/#/settings', 'http://x/guide.html#intro']), True), ('rId10', 'hyperlink', 'http://y/?a=1&b=2', True), ('rId20', 'image', 'media/i.png'),
           ('rId21', 'image', 'http://ext/i.png', True)]
     if r.random() < prof['p_numbering']:
         pk.add('word/numbering.xml', f'<w:numbering {ns_decl()}>{g.numbering()}</w:numbering>'); dr.append(('rId3', 'numbering', 'numbering.xml'))
@@ -404,11 +407,14 @@ def make_package(rng, prof=None, body=None):
     extra_rels = {}
     if r.random() < prof['p_footnotes']:
         fn = ('<w:footnote w:type="separator" w:id="-1"><w:p><w:r><w:separator/></w:r></w:p></w:footnote><w:footnote w:type="continuationSeparator" w:id="0"><w:p/></w:footnote>'
-              '<w:footnote w:id="2">' + g.par() + (g.table(1) if r.random() < 0.4 else '') + g.par() + '</w:footnote>' + r.choice(['<w:footnote w:id="3"/>', '<w:footnote w:id="3">' + g.par() + '</w:footnote>']))
+              '<w:footnote w:id="2"' + r.choice(['', '', ' w:type="normal"']) + '>' + g.par() + (g.table(1) if r.random() < 0.4 else '') + g.par() + '</w:footnote>'
+              + (('<w:footnote w:type="continuationNotice" w:id="12">' + g.par() + '</w:footnote>') if r.random() < 0.3 else '')
+              # (an empty note is not schema-valid; it is kept as the LAST note, where its queued label cannot leak into another note)
+              + r.choice(['<w:footnote w:id="3"/>', '<w:footnote w:id="3">' + g.par() + '</w:footnote>']))
         pk.add('word/footnotes.xml', f'<w:footnotes {ns_decl()}>{fn}</w:footnotes>'); dr.append(('rId5', 'footnotes', 'footnotes.xml'))
         extra_rels['word/_rels/footnotes.xml.rels'] = [('rId9', 'hyperlink', 'http://fn/', True), ('rId20', 'image', 'media/j.png')]
     if r.random() < prof['p_endnotes']:
-        pk.add('word/endnotes.xml', f'<w:endnotes {ns_decl()}><w:endnote w:id="9">' + g.par() + '</w:endnote></w:endnotes>'); dr.append(('rId6', 'endnotes', 'endnotes.xml'))
+        pk.add('word/endnotes.xml', f'<w:endnotes {ns_decl()}><w:endnote w:id="9">' + g.par() + '</w:endnote>' + (('<w:endnote w:type="continuationNotice" w:id="10">' + g.par() + g.par() + '</w:endnote>') if r.random() < 0.3 else '') + '</w:endnotes>'); dr.append(('rId6', 'endnotes', 'endnotes.xml'))
     nh = 0
     while r.random() < prof['p_header'] and nh < 3:
         nh += 1
